@@ -7,3 +7,7 @@ open Rpylib.Params
 #print axioms derived_attrs_cover
 #print axioms ctor_args_match
 #print axioms acceptance_match
+#print axioms objective_is_repricing_function
+#print axioms objective_rows_cover
+#print axioms objective_row_sound
+#print axioms measured_calibration_reprices
